@@ -144,3 +144,15 @@ def interp_matrix(nodes, deg, points):
     """
     ref = RefBasis(nodes, deg)
     return [[float(p) for p in ref.row(u)] for u in points]
+
+
+def interp_matrix_with_magnitude(nodes, deg, points):
+    """(R, M): R as in ``interp_matrix``; M[i][j] = RefBasis.magnitude(area of point i)[j], the size of the monomial
+    terms behind R[i][j] when the basis is stored as monomial coefficients (error bound of such an evaluation / eps)."""
+    ref = RefBasis(nodes, deg)
+    R, M = [], []
+    for u in points:
+        ar = ref.area(u)
+        R.append([float(p) for p in ref.row(u, ar)])
+        M.append(list(ref.magnitude(ar)))
+    return R, M
